@@ -152,6 +152,14 @@ class Elementwise:
         return 0 if p.returncode == 0 else 2
 
 
+# Where the complete float32 sweeps (all 2^32 arguments) of the thorough tier run: one architecture per distinct set of
+# floating-point kernels the elementary functions are built from (128/256/512-bit, with and without FMA, with the
+# SSE4.1 rounding instructions, AVX512DQ's float bitwise/conversion forms, the host's best architecture, the emulated
+# scalar-loop architecture). Every architecture still runs the lattice spaces in both stream orders; a complete sweep on all
+# 22 would take about 20 hours per property.
+FULL_SWEEP_ARCHS = ["sse2", "sse4_1", "fma3_sse4_2", "avx", "fma3_avx2", "avx512f", "avx512dq", "avx512vnni_avx512vbmi2", "emulated128"]
+
+
 class MathCheck:
     """A property decided by xvmath (elementary functions)."""
 
@@ -188,6 +196,8 @@ class MathCheck:
                "--deadline", str(self.deadline[1 if tier == "thorough" else 0])] + self.extra_args
         if known:
             cmd += ["--known", known]
+        if tier == "thorough":
+            cmd += ["--full-archs", ",".join(a for a in FULL_SWEEP_ARCHS if a in run)]
         for m in mods:
             cmd += ["--mod", m]
         p = subprocess.run(cmd)
@@ -781,13 +791,13 @@ CHECKS = {
         "thorough": "as quick plus all 2^32 float32 bit patterns, |k| <= 2^16 and 256 mantissa patterns per double binade"}),
     "C10": MathCheck("float", RULE_MATH, {
         "quick": "per unary function: every float32 binade x 2048 mantissa patterns, +-64-ulp windows at 70 algorithm switch points, k*pi/2 +- 3 ulp for k <= 3000 and a geometric ladder beyond, k/2 +- 2 ulp up to 180, special lattice, seed symbols; binary functions: thinned lattice^2; both stream orders; frozen bounds of DESIGN.md 8.1; all 22 architectures",
-        "thorough": "all 2^32 float32 arguments of each of the 28 unary functions (both halves of sincos included), both stream orders; binary functions on the larger lattice^2"}),
+        "thorough": "the quick spaces on all 22 architectures in both stream orders, plus all 2^32 float32 arguments of each of the 28 unary functions (both halves of sincos included) in neighbour order on 9 architectures, one per distinct set of floating-point kernels (sse2, sse4_1, fma3<sse4_2>, avx, fma3<avx2>, avx512f, avx512dq, avx512vnni<avx512vbmi2>, emulated<128>); binary functions on the larger lattice^2"}),
     "C11": MathCheck("double", RULE_MATH, {
         "quick": "per function: every double binade x 256 mantissa patterns, +-64-ulp windows at 70 switch points, k*pi/2 +- 3 ulp for k <= 3000 and a geometric ladder up to 2^900, k/2 +- 2 ulp up to 180, special lattice, seed symbols; thinned lattice^2 for the binary functions; both stream orders; 4.5 ulp for the exp/log/trig/hyperbolic/inverse/cbrt/hypot/atan2 families, DESIGN.md 8.2 for erf/erfc/tgamma/lgamma; nothing is claimed between lattice points",
         "thorough": "4096 mantissa patterns per binade, +-256-ulp windows, k <= 20000"}),
     "C12": MathCheck("float,double", "(a) every special operand of the table transcribed from the property (NaN arguments, domain errors, poles, limits, exact identities) is placed in every lane position among every companion class (31 constant classes + a rotation of all) and the lane's result class is checked; (b) relations are checked bit-for-bit over the whole unary argument space on mirrored batches: odd/even symmetry, sincos == (sin, cos), fabs == abs, rint == nearbyint, pow(x, +-0) == 1; states = table placements + relation points; transitions = lane results judged", {
         "quick": "table: about 190 (function, operand) entries x lanes x 32 companion classes per architecture; relations: the C10/C11 quick unary spaces (every binade x 2048 / 256 mantissas, switch-point windows, specials); all 22 architectures",
-        "thorough": "relations on all 2^32 float32 arguments and the C11 thorough lattice"}, extra_args=["--special"]),
+        "thorough": "relations on the quick spaces on all 22 architectures, on all 2^32 float32 arguments on the 9 kernel-distinct architectures (see C10), and on the C11 thorough lattice"}, extra_args=["--special"]),
     "C13": Composite([
         ("exact", DrivePart(["int", "fp", "cmp", "conv"], ["--placement", "--props", "C01,C02,C03,C06,C07,C08"])),
         ("math", MathPart("float,double", ["--placement"])),
@@ -796,7 +806,7 @@ CHECKS = {
         "thorough": "same spaces (complete for their definition)"}),
     "C14": MathCheck("float,double", RULE_MATH + "; for C14 the judged quantity is the number of iterations of the data-dependent loops of one call (hook XSIMD_VERIF_LOOP_TICK) against the frozen constants of DESIGN.md 8.3, a call is aborted and reported after 1000 iterations, and a watchdog reports any kernel call that does not return within 30 s", {
         "quick": "the C10 and C11 quick argument spaces of every elementary function, both stream orders (so that lanes of very different magnitude share a batch), all 22 architectures",
-        "thorough": "all 2^32 float32 arguments of every unary function and the C11 thorough lattice"}, extra_args=["--ticks"]),
+        "thorough": "the quick spaces on all 22 architectures in both stream orders, plus all 2^32 float32 arguments of every unary function on the 9 kernel-distinct architectures (see C10; both stream orders for the functions that contain hooked loops, lgamma and tgamma), and the C11 thorough lattice"}, extra_args=["--ticks"]),
     "C15": CpuidCheck(),
     "C18": AllocCheck(),
     "C19": Composite([
